@@ -1206,7 +1206,8 @@ int dsh(opt_t * opt)
     /* if -S, our exit value is the largest of the return codes */
     if (opt->ret_remote_rc) {
         for (i = 0; t[i].host != NULL; i++) {
-            if (t[i].state == DSH_FAILED && rc < RC_FAILED)
+            if ((t[i].state == DSH_FAILED || t[i].state == DSH_CANCELED)
+                && rc < RC_FAILED)
                 rc = RC_FAILED;
             if (t[i].rc > rc)
                 rc = t[i].rc;
